@@ -1264,3 +1264,190 @@ def check_content_kinds(ctx, rule="COVER-content"):
               f"`{short(site.test, 70)}` does not cover {k} (which may occur under {sorted(parents.get(k, ()))}): at times when only such content is active the cached path "
               f"(ISD.from_model with a SignificantTimes object) returns an empty snapshot while the uncached path returns the region with its content")
   return len(text_kinds)
+
+
+MODEL_KINDS = ("Body", "Div", "P", "Span", "Br", "Text", "Ruby", "Rb", "Rt", "Rp", "Rbc", "Rtc", "Region")
+
+
+def check_prune_sites(ctx, f: FuncInfo, rule="PRUNE-sites"):
+  """Who may drop an element from a snapshot.  Every `return None` of ISD._process_element is one of: the element is not active
+  at the offset; it belongs to another region; it computes to display=none; the final rule (no children left, and not a kind
+  that is kept when empty).  Any other site is evaluated over every element kind, with and without children: it may only drop
+  what the final rule would drop anyway - a childless element of a kind the final rule does not keep."""
+  from . import match as _m
+  from .minieval import MiniEval, Node, _Return
+  from ..consteval import Raised
+  ix = ctx.ix
+  ctx.unit(f.module)
+  sites = [r for r in own_nodes(f.node) if isinstance(r, ast.Return) and (r.value is None or (isinstance(r.value, ast.Constant) and r.value.value is None))]
+  # the tail of the function: the statements of the final keep-or-prune rule
+  body = f.node.body
+  k = len(body)
+  while k > 0 and (isinstance(body[k - 1], ast.Return) or (isinstance(body[k - 1], ast.If) and body[k - 1].body and isinstance(body[k - 1].body[-1], ast.Return) and not body[k - 1].orelse)):
+    k -= 1
+  tail = body[k:]
+  n = 0
+  for r in sites:
+    conds = list(_m.enclosing_conditions(r, f.node))
+    txt = " && ".join(unparse(_m.inline_locals_deep(f.node, t)) if getattr(t, "_parent", None) is not None else unparse(t) for t, _p in conds)
+    raw = " && ".join(unparse(t) for t, _p in conds)
+    if any(r is x for st in tail for x in ast.walk(st)):
+      kind = "final rule"
+    elif "StyleProperties.Display)" in raw and "DisplayType.none" in raw:
+      kind = "display=none"
+    elif "is_active" in raw or "activity" in txt or ("offset" in raw and ("begin" in raw or "end" in raw or "interval" in raw)):
+      kind = "inactive at the offset"
+    elif "region" in raw.lower() and any(op_ in raw for op_ in (" is not ", " != ", " is ")) and any(isinstance(c_, ast.Compare) and any(isinstance(x_, ast.Name) and "region" in x_.id for x_ in ast.walk(c_)) for t_, _p in conds for c_ in ast.walk(t_)):
+      kind = "another region"
+    else:
+      kind = None
+    key = f"{f.qualname}|return None under `{short(conds[-1][0], 50) if conds else 'no condition'}`" + (f" #{sum(1 for x in sites[:sites.index(r)] if True)}" if False else "")
+    n += 1
+    if kind is not None:
+      ctx.ok(rule, key, ctx.where(f.module, r), kind)
+      continue
+    # an unlisted ground: it may only anticipate the final rule
+    elem_names = {p_ for p_ in f.params if p_ in ("element", "isd_element")} or {"element"}
+    bad, und = [], None
+    for kd in MODEL_KINDS:
+      for nkids in (0, 1):
+        node = Node(kd, kd.lower(), [Node("Text", "t", ())] if nkids else [])
+        env = {nm: node for nm in elem_names | {"isd_element"}}
+        me = MiniEval(ix, node_classes={"Region": ix.classes.get("ttconv.isd:ISD.Region")} if False else None)
+        try:
+          holds = all(bool(MiniEval.truth(me.ev(t, dict(env), f, 0))) == pol for t, pol in conds)
+        except Raised:
+          holds = False
+        except NotConst as ex:
+          und = str(ex)
+          break
+        if not holds:
+          continue
+        if nkids:
+          bad.append(f"a {kd} with children")
+          continue
+        try:
+          me2 = MiniEval(ix, node_methods={"has_children": lambda n_: bool(n_.children)})
+          try:
+            me2.block(tail, dict(env), f, 0)
+            verdict = None
+          except _Return as ret:
+            verdict = ret.v
+        except (NotConst, Raised):
+          verdict = "?"
+        if verdict is not None:
+          bad.append(f"a childless {kd}" + (" (which the final rule keeps)" if verdict != "?" else " (which the final rule may keep)"))
+      if und is not None:
+        break
+    if und is not None:
+      ctx.undecide(rule, f"{key}: a ground for dropping an element that the rule neither lists nor can evaluate over the element kinds ({und})")
+    else:
+      ctx.check(not bad, rule, key, ctx.where(f.module, r), "anticipates the final rule: drops only childless elements of kinds the final rule drops",
+                f"this `return None` is none of the grounds for leaving an element out of a snapshot (inactive, other region, display=none, the final emptiness rule) and it drops "
+                f"{', '.join(bad[:6])}: the parent then receives an incomplete child list (a ruby container without its base or text fails its content check) or content disappears")
+  return n
+
+
+def check_cached_snapshot_calls(ctx, rule="FIN-cacheskip"):
+  """ISD.from_model with and without a SignificantTimes object, interpreted with _process_element replaced by a recorder: for every
+  offset inside the content interval of a cached single-region document - also offsets after the last significant time, where an
+  unbounded paragraph is still shown - the cached call processes the same regions as the uncached one; it may skip a document only
+  outside its content interval."""
+  from fractions import Fraction as F
+  from .minieval import MiniEval, Node
+  from ..consteval import Raised
+  ix = ctx.ix
+  f = ix.func("ttconv.isd:ISD.from_model")
+  ctx.unit(f.module)
+  stc = ix.cls("ttconv.isd:SignificantTimes")
+  key = f"{f.qualname}|the cache skips a document only outside its content interval"
+  bad, n = [], 0
+  for times, interval, offsets in (((F(0), F(1)), (F(1), None), (F(1, 2), F(1), F(5, 2), F(100))), ((F(1), F(4)), (F(1), F(4)), (F(0), F(1), F(3), F(4), F(9))),
+                                   ((), None, (F(0), F(7))), ((F(2), F(6)), (F(0), None), (F(0), F(2), F(6), F(50)))):
+    for off in offsets:
+      region = Node("Region", "r1", ())
+      doc = Node("ContentDocument", "doc", (), regions=[region])
+      cached = {"__record__": "_SingleRegionDocumentCache", "interval_cache": {}, "doc": doc, "content_interval": interval}
+      st = {"__record__": "SignificantTimes", "__class__": stc, "_sig_times": tuple(times), "_cache": [cached]}
+      calls = {}
+      for label, arg in (("uncached", None), ("cached", st)):
+        seen = []
+        hooks = {"ttconv.isd:ISD._process_element": lambda *a_, _s=seen: (_s.append((getattr(a_[4], "name", a_[4]), a_[3])), Node("Region", "isd_region", ()))[1],
+                 "ttconv.isd:ISD.put_region": lambda *a_: None}
+        me = MiniEval(ix, func_hooks=hooks, node_methods={"iter_regions": lambda n_: list(n_.fields.get("regions", []))})
+        try:
+          me.call(f, [doc, off, arg])
+        except Raised:
+          bad.append(f"offset {off}, {label}: raises")
+          seen = None
+        except NotConst as ex:
+          ctx.undecide(rule, f"{f.qualname}: not in the interpreted subset ({ex})")
+          return 0
+        calls[label] = seen
+      n += 1
+      if calls["uncached"] is None or calls["cached"] is None:
+        continue
+      inside = interval is None or (interval[0] <= off and (interval[1] is None or off < interval[1]))
+      if inside and calls["cached"] != calls["uncached"]:
+        bad.append(f"significant times {[str(t) for t in times]}, content interval [{interval[0] if interval else None}, {interval[1] if interval else None}), offset {off}: "
+                   f"with the cache the regions processed are {calls['cached']}, without it {calls['uncached']}")
+      if not inside and calls["cached"] not in ([], calls["uncached"]):
+        bad.append(f"offset {off} outside the content interval: the cached call processes {calls['cached']}")
+  ctx.check(not bad, rule, key, ctx.where(f.module, f.node), f"interpreted on {n} (cache, offset) samples",
+            "ISD.from_model, interpreted with _process_element replaced by a recorder: " + "; ".join(bad[:3]) + (f" (+{len(bad) - 3} more)" if len(bad) > 3 else "") +
+            " - a snapshot taken with the SignificantTimes cache differs from the snapshot without it (content that is still shown after the last significant time, e.g. a paragraph without end, disappears)")
+  return n
+
+
+def check_region_docs_cover(ctx, rule="COVER-regions"):
+  """ISD.significant_times interpreted with the per-region clone and the collector replaced by recorders: whatever the regions
+  specify (display=none included - an animation step may show the region later), every region of the document gets its own
+  single-region document, and the collector visits that region and the body of that document."""
+  from .minieval import MiniEval, Node
+  from ..consteval import Raised
+  ix = ctx.ix
+  f = ix.func("ttconv.isd:ISD.significant_times")
+  ctx.unit(f.module)
+  inner = next((g for g in ix.funcs.values() if g.qualname.startswith(f.qualname + ".<locals>.") and g.name == "compute_sig_times"), None)
+  if inner is None:
+    ctx.undecide(rule, f"{f.qualname}: the nested collector was not found")
+    return 0
+  me0 = MiniEval(ix)
+  disp = me0._enum_table(ix.cls("ttconv.style_properties:DisplayType"), f)
+  vis = me0._enum_table(ix.cls("ttconv.style_properties:VisibilityType"), f)
+  key = f"{f.qualname}|every region gets its single-region document"
+  bad, n = [], 0
+  for what, specs in (("three regions, the first with display=none, the second hidden and transparent", [("r1", {"Display": disp["none"]}), ("r2", {"Visibility": vis["hidden"], "Opacity": 0}), ("r3", {})]),
+                      ("two plain regions", [("r1", {}), ("r2", {})]), ("one region", [("r1", {"Display": disp["none"]})])):
+    body = Node("Body", "body", ())
+    regions = [Node("Region", rid, (), styles=st, id=rid, animation_steps=[]) for rid, st in specs]
+    doc = Node("ContentDocument", "doc", (), regions=regions, body=body)
+    visits = []
+
+    def clone(d_, rid_, _regions=regions, _body=body):
+      r_ = next(x for x in _regions if x.name == rid_)
+      return Node("ContentDocument", f"clone({rid_})", (), regions=[r_], body=_body)
+    hooks = {"ttconv.isd:_clone_doc_with_one_region": clone,
+             inner.qualname: lambda *a_, _v=visits: _v.append(getattr(a_[3], "name", a_[3]))}
+    methods = {"iter_regions": lambda n_: list(n_.fields.get("regions", [])), "get_body": lambda n_: n_.fields.get("body"), "get_id": lambda n_: n_.fields.get("id"),
+               "get_style": lambda n_, p_: n_.fields.get("styles", {}).get(getattr(p_, "name", p_)), "has_style": lambda n_, p_: getattr(p_, "name", p_) in n_.fields.get("styles", {}),
+               "iter_animation_steps": lambda n_: [], "iter_styles": lambda n_: list(n_.fields.get("styles", {}))}
+    try:
+      MiniEval(ix, func_hooks=hooks, node_methods=methods).call(f, [doc])
+    except Raised:
+      bad.append(f"{what}: raises")
+      n += 1
+      continue
+    except NotConst as ex:
+      ctx.undecide(rule, f"{f.qualname}: not in the interpreted subset ({ex})")
+      return 0
+    n += 1
+    want = []
+    for rid, _st in specs:
+      want += [rid, "body"]
+    if visits != want:
+      bad.append(f"{what}: the collector visits {visits} instead of {want}")
+  ctx.check(not bad, rule, key, ctx.where(f.module, f.node), f"interpreted on {n} sample documents",
+            "ISD.significant_times, interpreted with the clone and the collector replaced by recorders: " + "; ".join(bad[:3]) +
+            " - a region that is left out has no cached document: its times are not significant times and snapshots taken with the cache never show it, even while an animation step displays it")
+  return n
